@@ -27,6 +27,9 @@ def run(check: Check, repo: Repo, tier: str) -> None:
     T.root_set_pairing(check, repo)
     T.announce_cover(check, repo)
     T.ancestor_walk(check, repo)
+    T.graph_owners(check, repo)
+    G.iter_mutation(check, [f for m in repo.package_modules('execution') for f in m.functions()])
+    check.floor("ITER-MUTATION", 40, "functions with loops in execution/")
     T.stale_loop_var(check, repo, repo.package_modules('execution.incremental'))
     check.floor('STALE-LOOP-VAR', 10, 'loops with loop-local names')
     G.loop_counter(check, [f for m in repo.package_modules('execution') for f in m.functions()])
